@@ -478,6 +478,13 @@ class Interp:
             return self.refine(test.operand, env, fr, not positive)
         if isinstance(test, ast.Compare) and len(test.ops) == 1:
             op, l, r = type(test.ops[0]), test.left, test.comparators[0]
+            if op in (ast.Is, ast.IsNot) and isinstance(l, ast.Name) and isinstance(env.get(l.id), SV) and isinstance(r, ast.Constant) and r.value is None:
+                want_none = (op is ast.Is) == positive
+                sv = env[l.id]
+                keep = [(gd, v) for gd, v in sv.alts if (v is None) == want_none]
+                if keep and len(keep) < len(sv.alts):
+                    env[l.id] = SV(keep).simp() if len(keep) > 1 else keep[0][1]
+                return env
             if op not in self._POS:
                 return env
             if isinstance(r, ast.Name) and isinstance(env.get(r.id), SV) and not (isinstance(l, ast.Name) and isinstance(env.get(l.id), SV)):
